@@ -92,6 +92,7 @@ class Scheduler:
         self.stalled_until = {}
         self.in_worker = False
         self.yield_kinds = {}
+        self.idle_polls = 0
 
     # -- priorities (PCT) -----------------------------------------------------
     def _priority(self, w):
@@ -148,7 +149,18 @@ class Scheduler:
                     for w in idle:
                         enabled.append((f"dispatch:{w.ordinal}", w))
                 for w in pool._workers:
-                    if w.alive and w.task is not None:
+                    if w.alive and w.task is not None and not w.waiting:
+                        enabled.append((f"run:{w.ordinal}", w))
+            if not any(l.startswith("run:") for l, _ in enabled):
+                # only waiters (blocked on a lock / sleeping) could run: let them
+                # poll again - but a system in which nobody else can ever move is stuck
+                waiters = [w for w in self.workers if w.alive and w.task is not None and w.waiting]
+                if waiters and not any(l.startswith("dispatch:") for l, _ in enabled):
+                    self.idle_polls += 1
+                    if self.idle_polls > 3000:
+                        raise Violation("liveness", "deadlock", f"every started worker waits (lock / sleep) and nothing else can move while main waits for {what}", {})
+                    for w in waiters:
+                        w.waiting = False
                         enabled.append((f"run:{w.ordinal}", w))
             unstalled = [(l, w) for l, w in enabled if w.ordinal not in now_stalled]
             if unstalled:
@@ -197,6 +209,7 @@ class _Worker:
         self.alive = True
         self.task = None
         self.started = False
+        self.waiting = False
         self.served = 0
 
 
@@ -249,6 +262,7 @@ def _worker_main(ordinal, cmd_r, msg_w, initializer, initargs, sched):
     if disk is not None:
         disk.hook = yield_hook
         disk.journal = []
+    _cooperative_blocking(lambda kind: (_send(msg_w, ("yield", kind)), wait_go()))
     first = True
     try:
         while True:
@@ -284,7 +298,58 @@ def _worker_main(ordinal, cmd_r, msg_w, initializer, initargs, sched):
         os._exit(0)
 
 
+def _cooperative_blocking(yield_to_scheduler):
+    """Inside a simulated worker nothing may block for real on another
+    simulated process (that one is parked until the scheduler lets it run):
+    advisory file locks become try-lock + yield, sleeping becomes a yield."""
+    import fcntl
+    import threading
+    import time as _time
+
+    real_flock, real_lockf, real_sleep = fcntl.flock, fcntl.lockf, _time.sleep
+
+    def main_thread():
+        return threading.current_thread() is threading.main_thread()
+
+    def flock(fd, operation):
+        if operation & (fcntl.LOCK_UN | fcntl.LOCK_NB) or not main_thread():
+            return real_flock(fd, operation)
+        while True:
+            try:
+                return real_flock(fd, operation | fcntl.LOCK_NB)
+            except (BlockingIOError, PermissionError):
+                yield_to_scheduler("LOCKWAIT")
+
+    def lockf(fd, cmd, *a):
+        if cmd & (fcntl.LOCK_UN | fcntl.LOCK_NB) or not main_thread():
+            return real_lockf(fd, cmd, *a)
+        while True:
+            try:
+                return real_lockf(fd, cmd | fcntl.LOCK_NB, *a)
+            except (BlockingIOError, PermissionError):
+                yield_to_scheduler("LOCKWAIT")
+
+    def sleep(seconds):
+        if not main_thread():
+            return real_sleep(seconds)  # helper threads are not simulated processes
+        yield_to_scheduler("SLEEP")  # virtual: simulated time is counted in steps
+
+    fcntl.flock, fcntl.lockf, _time.sleep = flock, lockf, sleep
+
+
 class SimPool(cf.Executor):
+    def __new__(cls, max_workers=None, mp_context=None, initializer=None, initargs=(), **kw):
+        # a pool with another start method (spawn, forkserver) shares nothing the
+        # simulator could interleave at file-operation granularity: hand out the
+        # real executor (uncontrolled schedule, real behaviour)
+        if mp_context is not None:
+            try:
+                if mp_context.get_start_method() != "fork":
+                    return _REAL_PPE(max_workers=max_workers, mp_context=mp_context, initializer=initializer, initargs=initargs, **kw)
+            except Exception:
+                pass
+        return super().__new__(cls)
+
     def __init__(self, max_workers=None, mp_context=None, initializer=None, initargs=(), *, max_tasks_per_child=None):
         sched = _current["sched"]
         if sched is None:
@@ -407,11 +472,22 @@ class SimPool(cf.Executor):
             s.stats["yield"] += 1
             s.yield_kinds[msg[1]] = s.yield_kinds.get(msg[1], 0) + 1
             s.log.add(s.step, "yield", w.ordinal, msg[1])
+            if msg[1] in ("LOCKWAIT", "SLEEP"):
+                w.waiting = True  # not scheduled again before somebody else made a step
+            else:
+                s.idle_polls = 0
+                for x in s.workers:
+                    if x is not w:
+                        x.waiting = False
             return
         assert msg[0] == "done"
         t = w.task
         w.task = None
         w.started = False
+        w.waiting = False
+        s.idle_polls = 0
+        for x in s.workers:
+            x.waiting = False
         t.done = True
         s.completed.append(t)
         s.stats["tasks"] += 1
